@@ -331,6 +331,12 @@ class MemoryZone(object):
         # by adjusting [i,j]:
         if z.end in self._map[j]:
             self._map[j].trim(z.end)
+            nxt = self._map[j]
+            if nxt.vaddr == z.end and isinstance(z.data.val, bytes) and isinstance(nxt.data.val, bytes):
+                # raw bytes written right before a raw object: one object, as
+                # when they are written in ascending order (see mo.write)
+                z.data.val = z.data.val + nxt.data.val
+                j += 1
         else:
             j += 1
         Z = [z]
